@@ -5,10 +5,13 @@ import os
 import random
 import re
 import shutil
+import sys
 import tempfile
 import threading
 
 from harness.core import hx, unhx, Violation, excname
+
+HERE = os.path.dirname(os.path.abspath(__file__))
 
 LEAN_TARGETS = ["PoorProofs.Props.C17"]
 AUDIT_IMPORTS = ["PoorProofs.Props.C17"]
@@ -640,9 +643,34 @@ def compare(case, got, want, what):
 
 
 def oracle(case):
+    """the answer of every request of the case against a fresh application; a violation found in a process that
+    has already served other cases is tried again in a fresh interpreter, and the report says whether the case
+    alone reproduces it (state left behind by *earlier cases* is a violation too, but its replay needs them)"""
+    res = oracle_here(case)
+    if res and not os.environ.get("VERIF_C17_CHILD") and _served[0] > 1:
+        import subprocess
+        code = ("import sys; sys.path.insert(0, %r); sys.path.insert(0, '/repo'); from harness import c17; "
+                "r = c17.oracle_here(%r); print('REPRO' if r else 'CLEAN')" % (os.path.dirname(HERE), case))
+        try:
+            out = subprocess.run([sys.executable, "-c", code], capture_output=True, text=True, timeout=120,
+                                 env=dict(os.environ, VERIF_C17_CHILD="1")).stdout
+        except Exception:
+            out = ""
+        note = (" [reproduces in a fresh process from this case alone]" if "REPRO" in out else
+                " [not from this case alone: needs the state earlier cases of the run left behind]")
+        for v in res:
+            v.detail += note
+    return res
+
+
+_served = [0]
+
+
+def oracle_here(case):
     t = case.split()
     if t[1] == "inventory":
         return []
+    _served[0] += 1
     saved = frozen()
     try:
         if t[1] == "hist":
